@@ -24,13 +24,13 @@ theorem c02_capacity (hn : 0 < n) (hr : ReachableX n s) : s.tail - s.head ≤ s.
   rw [abs_length s h]; omega
 
 /-- every micro-step is either invisible, or exactly one abstract enqueue at the back (the thread then goes on to measure
-    the length it reports, `c02_sent_len`), or exactly one abstract dequeue of the front element (and the thread returns it) -/
+    the length it reports, `c02_sent_len` / `c08_publish_idx_len`), or exactly one abstract dequeue of the front element (and the thread returns it) -/
 theorem c02_step_abs (hn : 0 < n) (hr : ReachableX n s) (t : Nat) :
     abs (step s t) = abs s
     ∨ (∃ v id len, s.thr t = .pPublish v id len ∧ abs (step s t) = abs s ++ [v] ∧ (abs s).length < s.N
           ∧ (step s t).thr t = .pLen id)
     ∨ (∃ id idx g, s.thr t = .rPub id idx g ∧ abs (step s t) = abs s ++ [s.buf idx] ∧ (abs s).length < s.N
-          ∧ ∃ r, (step s t).thr t = .done (.pubIdx (some r)))
+          ∧ (step s t).thr t = .rLen g)
     ∨ (∃ id v, s.thr t = .cRelease id v ∧ abs s = v :: abs (step s t) ∧ (step s t).thr t = .done (.got v)) :=
   step_abs s t (reachable_inv hn hr)
 
@@ -79,7 +79,7 @@ theorem c02_empty_witness (hn : 0 < n) (hr : ReachableX n s) (t : Nat) :
       · exact Or.inl h'
       · obtain ⟨_, _, _, _, _, _, e⟩ := h'; cases e
       · obtain ⟨_, _, e⟩ := h'; cases e
-      · obtain ⟨_, _, _, _, _, e⟩ := h'; cases e
+      · obtain ⟨_, _, e⟩ := h'; cases e
       · obtain ⟨_, _, _, _, _, e⟩ := h'; cases e
       · obtain ⟨h, w, e1, e2, _⟩ := h'
         have := (hi.chkOk t h w e1).2
@@ -112,7 +112,7 @@ theorem c02_full_witness (hn : 0 < n) (hr : ReachableX n s) (t : Nat) :
       have := hi.recOk t v id rsv w e1; subst this
       exact Or.inr ⟨h1, v, id, rsv, e1, e2⟩
     · obtain ⟨_, _, e⟩ := h'; cases e
-    · obtain ⟨_, _, _, _, _, e⟩ := h'; cases e
+    · obtain ⟨_, _, e⟩ := h'; cases e
     · obtain ⟨_, _, _, _, _, e⟩ := h'; cases e
     · obtain ⟨_, _, _, _, e⟩ := h'; cases e
     · obtain ⟨_, _, _, _, e⟩ := h'; cases e
